@@ -22,7 +22,7 @@ pub enum F {
     Clo { cid_ok: bool },
     Ack,
 }
-pub struct Case { frames: Vec<F> }
+pub struct Case { frames: Vec<F>, live: bool }
 pub struct P;
 
 thread_local! { static RIG: Rig = Rig::new("c15"); }
@@ -47,32 +47,66 @@ fn term(f: &F) -> String {
 }
 fn letter(f: &F) -> char { match f { F::Hel { .. } => 'H', F::Opn { renew: false, .. } => 'O', F::Opn { .. } => 'R', F::Msg { .. } => 'M', F::Clo { .. } => 'C', F::Ack => 'A' } }
 
+fn frame_bytes(cl: &mut Client, f: &F) -> Vec<u8> {
+    let real_cid = cl.sc.secure_channel_id();
+    match f {
+        F::Hel { pv, bufs_ok, url_ok } => Client::hello(if *url_ok { URL } else { "http://127.0.0.1/" }, *pv, if *bufs_ok { 65536 } else { 8195 }, 65536),
+        F::Opn { renew, pv } => cl.open(*renew, *pv).1,
+        F::Msg { kind, cid_ok } => {
+            if !*cid_ok { cl.sc.set_secure_channel_id(real_cid + 5); }
+            let b = if *kind == 0 { cl.get_endpoints().1 } else { cl.read(1).1 };
+            cl.sc.set_secure_channel_id(real_cid);
+            b
+        }
+        F::Clo { cid_ok } => {
+            if !*cid_ok { cl.sc.set_secure_channel_id(real_cid + 5); }
+            let b = cl.close().1;
+            cl.sc.set_secure_channel_id(real_cid);
+            b
+        }
+        F::Ack => { let mut v = b"ACKF".to_vec(); v.extend(28u32.to_le_bytes()); v.extend([0u8; 20]); v }
+    }
+}
+
+/// The same frames against the REAL connection tasks over a loopback socket (`LiveConn`).
+/// `expected` is the hook-based result: per frame [status, n, kinds...].  After each frame the
+/// client reads the expected number of response frames (decoding them with the crate's own
+/// Chunker) and, after a frame that must close the connection, expects the server to close the
+/// socket without sending anything.  Returns false on any deviation.
+fn live(frames: &[F], expected: &[i128]) -> bool {
+    let Some(mut lc) = RIG.with(|rig| LiveConn::connect(rig, 0, 0)) else { return true };
+    let mut cl = Client::new();
+    let mut e = 0usize;
+    let mut ok = true;
+    for f in frames {
+        if expected[e] == -1 { break; } // the hook run stopped here (connection closed)
+        let (status, n) = (expected[e], expected[e + 1] as usize);
+        let kinds = &expected[e + 2..e + 2 + n];
+        e += 2 + n;
+        let bytes = frame_bytes(&mut cl, f);
+        if !lc.send(&bytes) { ok = false; break; }
+        for k in kinds {
+            let Some(fr) = lc.read_frame() else { ok = false; break; };
+            if LiveConn::response_kind(&mut cl, fr) != *k { ok = false; }
+        }
+        if !ok { break; }
+        if status != 0 { ok = lc.expect_close(); break; }
+    }
+    if ok && expected[expected.len() - 1] == 0 {
+        // never closed by the server: we close, and nothing more may arrive
+        ok = lc.close_and_expect_close();
+    }
+    lc.finish();
+    ok
+}
+
 fn run(frames: &[F]) -> Vec<i128> {
     RIG.with(|rig| {
         let mut conn = Conn::new(rig.transport(0, 0));
         let mut cl = Client::new();
         let mut out = Vec::new();
         for f in frames {
-            let real_cid = cl.sc.secure_channel_id();
-            let bytes = match f {
-                F::Hel { pv, bufs_ok, url_ok } => Client::hello(if *url_ok { URL } else { "http://127.0.0.1/" }, *pv, if *bufs_ok { 65536 } else { 8195 }, 65536),
-                F::Opn { renew, pv } => cl.open(*renew, *pv).1,
-                F::Msg { kind, cid_ok } => {
-                    if !*cid_ok { cl.sc.set_secure_channel_id(real_cid + 5); }
-                    let b = if *kind == 0 { cl.get_endpoints().1 } else { cl.read(1).1 };
-                    cl.sc.set_secure_channel_id(real_cid);
-                    b
-                }
-                F::Clo { cid_ok } => {
-                    if !*cid_ok { cl.sc.set_secure_channel_id(real_cid + 5); }
-                    let b = cl.close().1;
-                    cl.sc.set_secure_channel_id(real_cid);
-                    b
-                }
-                F::Ack => {
-                    let mut v = b"ACKF".to_vec(); v.extend(28u32.to_le_bytes()); v.extend([0u8; 20]); v
-                }
-            };
+            let bytes = frame_bytes(&mut cl, f);
             match guarded(|| conn.feed(&bytes)) {
                 Err(_) => { out.push(-2); break; }
                 Ok(Step::NeedMore) => { out.push(-3); break; }
@@ -143,7 +177,8 @@ impl Property for P {
             v.extend(next.iter().cloned());
             level = next;
         }
-        v.into_iter().map(|frames| Case { frames }).collect()
+        // the explicit list and every sequence up to length 3 are also run against the live connection tasks
+        v.into_iter().enumerate().map(|(i, frames)| { let live = i < 24 || frames.len() <= 3; Case { frames, live } }).collect()
     }
     fn gen(r: &mut Rng) -> Case {
         let n = 1 + r.below(12) as usize;
@@ -161,10 +196,13 @@ impl Property for P {
                 } };
             frames.push(f);
         }
-        Case { frames }
+        let live = r.chance(1, 10);
+        Case { frames, live }
     }
     fn exec(c: &Case) -> Out {
-        let out = run(&c.frames);
+        let mut out = run(&c.frames);
+        // cross-check against the real socket tasks; a deviation breaks the output format
+        if c.live && !live(&c.frames, &out) { out.push(-98); }
         let shape: String = c.frames.iter().take(4).map(letter).collect();
         let tag = if c.frames.is_empty() { "trivial-empty".to_string() } else { format!("{}{}-len{}", shape, if c.frames.len() > 4 { "+" } else { "" }, std::cmp::min(c.frames.len(), 9)) };
         Out { tag, term: coq_list(&c.frames, term), out }
